@@ -4,6 +4,23 @@ SIM_NOTE = ("trusted base: the behavioural nRF24L01+ simulator (vlib/sim, self-t
             "driver; chip assumptions (a)-(e) of DESIGN.md 2.6")
 
 CHECKS = [
+    {"property_id": "C18", "level": "exploration",
+     "text": "Hypothesis-generated histories of MAC / name / show_pa_level / pa_level / hop_channel / channel= / with-block "
+             "re-entry and advertise() calls whose chunk lists are constructed around the capacity boundary; the W_TX_PAYLOAD bytes "
+             "and RF_CH are read from the simulated chip and parsed by an independent bit-serial BLE link-layer reference "
+             "(de-whitening with the channel implied by RF_CH, PDU header, length, AdvA, AD structures verbatim, CRC-24); "
+             "len_available() and the ValueError boundary are compared with the arithmetic of the BLE packet layout",
+     "design_ref": "4/C18", "note": "trusted base: vlib/ref/ble.py (written from the Core specification, reproduces the published "
+     "channel-37 whitening sequence and the CRC test vector) and the chip model's SPI trace; the library's own receiver is not used as oracle",
+     "technique": "property-based testing: Hypothesis histories with an independent BLE reference decoder as oracle"},
+    {"property_id": "C19", "level": "exploration",
+     "text": "FakeBLE->FakeBLE round trips over the simulated air on all three channels for generated name/PA/service-data "
+             "combinations, packets from the independent BLE encoder, every single and (thorough: every; quick: 1/8 of the) double "
+             "bit flip of valid packets, CRC-valid packets with adversarial AD areas, random 32-byte payloads, and an "
+             "atheris/libFuzzer campaign with the oracle in the target; the reference parser decides which payloads are consistent "
+             "packets, decoded values are compared with what was advertised, available() must never raise, read() order is checked",
+     "design_ref": "4/C19", "note": "trusted base: vlib/ref/ble.py and the simulator; temperature float tolerance 0.01 (encoder truncates to 1/100)",
+     "technique": "property-based testing: round-trip + differential against independent BLE encoder/parser, exhaustive bit-flip enumeration, coverage-guided fuzzing (atheris)"},
     {"property_id": "C15", "level": "exploration",
      "text": "the validity predicate is compared with the reference on all 65536 values (exhaustive); a node of every role "
              "(routing-only, network, mesh node, unassigned mesh node, mesh master) and level 0..4 receives, through the simulated "
